@@ -91,10 +91,14 @@ pub enum FaultKind {
     BlackholeBoth,
     /// From the moment frame `at` is put, nothing is delivered in this direction any more.
     BlackholeOne,
+    /// The writer of this direction is never ready again once `at` frames were written (a silent stall that
+    /// shows as back-pressure, e.g. a peer whose receive window stays closed); frames written before are
+    /// delivered normally.
+    StallOne,
 }
 
-pub const ALL_FAULTS: [FaultKind; 5] =
-    [FaultKind::SinkError, FaultKind::StreamError, FaultKind::Eof, FaultKind::BlackholeBoth, FaultKind::BlackholeOne];
+pub const ALL_FAULTS: [FaultKind; 6] =
+    [FaultKind::SinkError, FaultKind::StreamError, FaultKind::Eof, FaultKind::BlackholeBoth, FaultKind::BlackholeOne, FaultKind::StallOne];
 
 #[derive(Clone, Copy, Debug)]
 pub struct Fault {
@@ -405,9 +409,33 @@ impl Sink<Bytes> for NetSink {
 
     fn poll_ready(self: Pin<&mut Self>, cx: &mut Context<'_>) -> Poll<Result<(), io::Error>> {
         let mut g = self.net.inner.lock().unwrap();
+        let g = &mut *g;
         let cap = g.cfg.capacity;
         let drop_visible = g.cfg.drop_visible;
         let eager = matches!(g.cfg.delivery, Delivery::Eager);
+        if let Some(f) = g.cfg.fault {
+            if f.kind == FaultKind::StallOne && f.dir == self.dir && g.links[self.dir.idx()].put_count >= f.at && !g.links[self.dir.idx()].sink_err {
+                if g.fault_fired_step.is_none() {
+                    g.fault_fired_step = Some(g.step);
+                    bump_progress();
+                }
+                // what was written before still goes out
+                let l = &mut g.links[self.dir.idx()];
+                if !l.unflushed.is_empty() {
+                    while let Some(fr) = l.unflushed.pop_front() {
+                        l.queue.push_back(fr);
+                    }
+                    if eager && !l.starved {
+                        l.released = l.queue.len();
+                        if let Some(w) = l.reader_waker.take() {
+                            w.wake();
+                        }
+                    }
+                    self.net.notify.notify_one();
+                }
+                return Poll::Pending;
+            }
+        }
         let l = &mut g.links[self.dir.idx()];
         if l.sink_err {
             return Poll::Ready(Err(broken("injected sink error")));
